@@ -3874,7 +3874,7 @@ def run_impl_only(ctx):
 def replay(ctx, data):
     import warnings
     warnings.simplefilter("ignore")
-    case = data["case"]
+    case = data["case"] if "case" in data else data["broken"][0]["case"]
     if "fns" in case:
         fns = load_fns(case["fns"])
         stats = {}
